@@ -142,7 +142,11 @@ def run_case(ctx, kind_, idx):
                     callform.call(rng, wv.to_function, "Weaver.to_function", [], {"s": 0}, p_pos=0.5)      # 0 is the documented default
                 got = np.asarray(f(x), dtype=float)
                 mid = (x[:-1] + x[1:]) / 2
-                got_mid = np.asarray(f(mid), dtype=float)
+                # "sampled anywhere": between the samples and also just outside them (a time grid built with arange ends
+                # a step beyond the last sample; one ulp outside either end)
+                outside = np.array([x[0] - 0.5 * (x[1] - x[0]), np.nextafter(x[0], -np.inf), np.nextafter(x[-1], np.inf),
+                                    x[-1] + 0.5 * (x[-1] - x[-2])])
+                got_mid = np.concatenate([np.asarray(f(mid), dtype=float), np.asarray(f(outside), dtype=float)])
             elif mode == "smooth":
                 callform.call(rng, wv.smooth, "Weaver.smooth", [s], p_kw=0.3)
             elif mode == "smooth_zero":
